@@ -849,7 +849,7 @@ theorem parseFsElem_okp (K : Consts) (ts : TypeSystem) (tsIdx : Nat) (hp : Heap)
     OkP (FsRes ts hp) (parseFsElem K ts tsIdx hp e) := by
   unfold parseFsElem
   refine OkP.bind (fun t ht => ?_)
-  have hct := containsType_of_getType ht
+  have hct := containsType_of_getType (getType_of_getTypeExact ht)
   dsimp only
   split
   all_goals (
